@@ -2,6 +2,24 @@
 """Generate MANIFEST.json from the table below (kept in one place so it always validates)."""
 import json
 checks = {
+ "C04": ("exploration", "bounded-exhaustive enumeration of token strings, corpus and grammar sentences; every method on every node reached by a reflective walker",
+         "Every tree returned for every enumerated input (with and without errors, four entry points per alphabet) has Walk/Inspect/Preorder run on it and SQL()/Pos()/End() called on every node found by reflection; any panic is a violation.",
+         "Trees the parser can only build from longer inputs than the bounds are not reached.", "6 C04"),
+ "C05": ("exploration", "bounded-exhaustive enumeration of token strings, corpus and grammar sentences; range/alignment/nesting/order oracle on every node",
+         "Range, token alignment (error-free inputs), nesting and sibling order are evaluated on every node of every tree of the enumerated inputs, for both clauses of the property.",
+         "Token boundaries come from the public lexer (C13/C14 decide it).", "6 C05"),
+ "C09": ("exploration", "bounded-exhaustive enumeration of token strings, corpus and grammar sentences; error-contract oracle incl. drop-last-token differential",
+         "Every call on the enumerated inputs is checked: nil error => no Bad node and no ignored trailing token (removing the last token must change the result); Bad node => error; error count >= BadNode count; messages and positions well formed.",
+         "An ignored trailing token is detected by the differential 'same result without the last token', exempting the documented trailing ',' and list ';'.", "6 C09"),
+ "C10": ("exploration", "bounded-exhaustive enumeration of token strings (with comment/empty glue), corpus and edited grammar sentences; Bad-node token oracle",
+         "Every BadNode of every returned tree is compared with the recovery-mode lexing of the whole input restricted to its range (kinds, spellings, extents), for disjointness, and its SQL() is re-lexed.",
+         "Uses the overlay accessor for the recovery-mode lexer step; empty-spelling <bad> pseudo tokens (unclosed comment) are ignored in comparisons.", "6 C10"),
+ "C17": ("exploration", "bounded-exhaustive enumeration of trees (token strings, corpus, grammar, synthetic node shapes) x prune sets x early-exit indices against a reflective walker",
+         "Walk/Inspect/Preorder/*Many are compared with an independent reflective preorder on every tree; for every distinct tree shape every prune set (small trees) or every prune set of size <=2, and every early-exit index.",
+         "Prune sets are enumerated once per distinct tree shape (Walk does not look at values).", "6 C17"),
+ "C19": ("translation_validation", "regenerate-and-compare of the generated sources + exhaustive interpreter-vs-compiled comparison on synthetic node shapes and all parsed nodes",
+         "The repository's generators are re-run and compared byte for byte with ast/pos.go and ast/walk_internal.go; for all 264 node structs every valuation of the fields named in the pos/end documentation (plus bounded deviations on the others) compares compiled Pos()/End() with the poslang interpreter and Walk's children with the declared node-typed fields; the same comparison runs on every node of every parsed tree.",
+         "Trusts `go run` of the repository's own generators and the poslang interpreter (the oracle named by the property).", "6 C19"),
  "C03": ("exploration", "bounded-exhaustive enumeration of byte, lexeme and token strings through every entry point under recover and a watchdog",
          "Every S1 byte string, S2 lexeme sequence and S3 token string (lexically malformed tokens at every position, incl. first and after ';') goes through the lexer, the splitter and all nine Parse* functions; any panic, hang, wrongly typed error or nil node is a violation.",
          "Inputs longer than the bounds are not explored; stack exhaustion on deep nesting is out of scope.", "6 C03"),
